@@ -73,8 +73,15 @@ pub fn evaluate_sub_op(a: &Val, b: &Val) -> Result<Val> {
 pub fn evaluate_mul_op(a: &Val, b: &Val) -> Result<Val> {
 	use Val::*;
 	Ok(match (a, b) {
-		(Str(s), Num(c)) => Val::string(s.to_string().repeat(c.get() as usize)),
-		(Num(c), Str(s)) => Val::string(s.to_string().repeat(c.get() as usize)),
+		(Str(s), Num(c)) | (Num(c), Str(s)) => {
+			let s = s.to_string();
+			let count = c.get() as usize;
+			// String::repeat panics when the resulting length overflows usize
+			if s.len().checked_mul(count).is_none() {
+				bail!("string repetition result is too large")
+			}
+			Val::string(s.repeat(count))
+		}
 
 		(Num(v1), Num(v2)) => Val::try_num(v1.get() * v2.get())?,
 
